@@ -1,11 +1,19 @@
 package proxyx
 
 import (
+	"context"
 	"math/rand"
 	"sync"
 	"testing"
 	"time"
 
+	"github.com/go-kit/log"
+	"github.com/prometheus/prometheus/model/labels"
+
+	"github.com/thanos-io/thanos/pkg/component"
+	"github.com/thanos-io/thanos/pkg/query"
+	"github.com/thanos-io/thanos/pkg/store"
+	"github.com/thanos-io/thanos/pkg/store/labelpb"
 	"github.com/thanos-io/thanos/pkg/store/storepb"
 
 	"verif/harness/vt"
@@ -16,13 +24,15 @@ const c06ResponseTimeout = 1500 * time.Millisecond
 func c06Configs(strategy string) []any {
 	var out []any
 	for _, rc := range [][2]any{{"lazy", 1}, {"lazy", 25}, {"eager", 0}} {
-		out = append(out, map[string]any{"retr": rc[0], "buf": rc[1], "rb": 0, "flag": false})
+		out = append(out, map[string]any{"retr": rc[0], "buf": rc[1], "rb": 0, "flag": false, "via": "proxy"})
 	}
-	out = append(out, map[string]any{"retr": "lazy", "buf": 2, "rb": 2, "flag": false})
+	out = append(out, map[string]any{"retr": "lazy", "buf": 2, "rb": 2, "flag": false, "via": "proxy"})
 	if strategy == "ABORT" {
 		// the deprecated way of asking for abort: partial_response_disabled
-		out = append(out, map[string]any{"retr": "lazy", "buf": 1, "rb": 0, "flag": true}, map[string]any{"retr": "eager", "buf": 0, "rb": 3, "flag": true})
+		out = append(out, map[string]any{"retr": "lazy", "buf": 1, "rb": 0, "flag": true, "via": "proxy"}, map[string]any{"retr": "eager", "buf": 0, "rb": 3, "flag": true, "via": "proxy"})
 	}
+	// the querier's mapping partialResponse flag -> strategy (pkg/query/querier.go)
+	out = append(out, map[string]any{"retr": "lazy", "buf": 1, "rb": 0, "flag": false, "via": "querier"}, map[string]any{"retr": "eager", "buf": 0, "rb": 0, "flag": false, "via": "querier"})
 	return out
 }
 
@@ -50,7 +60,11 @@ func c06RunOne(c vt.Case, i int, cfg map[string]any) map[string]any {
 	var res runResult
 	var fakes []*fakeStore
 	for attempt := 0; attempt < 3; attempt++ {
-		res, fakes = runProxyReq(c, cfg, pl, vt.Int64(c["sseed"])+int64(i)*7919+int64(attempt), strategy, abort && vt.Bool(cfg["flag"]), timeout)
+		if vt.Str(cfg["via"]) == "querier" {
+			res, fakes = c06RunQuerier(c, cfg, pl, vt.Int64(c["sseed"])+int64(i)*7919+int64(attempt), !abort, timeout)
+		} else {
+			res, fakes = runProxyReq(c, cfg, pl, vt.Int64(c["sseed"])+int64(i)*7919+int64(attempt), strategy, abort && vt.Bool(cfg["flag"]), timeout)
+		}
 		// WARN never returns early, so a healthy store whose stream was cancelled half way was
 		// hit by the response timeout: the machine stalled (or the proxy is wrong, which then
 		// shows in every attempt).  Retry; the last attempt is judged whatever happened.
@@ -68,7 +82,41 @@ func c06RunOne(c vt.Case, i int, cfg map[string]any) map[string]any {
 	for k, f := range fakes {
 		named[k] = namesStore(res.warnings, f.name)
 	}
-	return map[string]any{"cfg": i + 1, "err": res.err, "nwarn": len(res.warnings), "named": named, "series": res.series}
+	return map[string]any{"cfg": i + 1, "via": vt.Str(cfg["via"]), "err": res.err, "nwarn": len(res.warnings), "named": named, "series": res.series}
+}
+
+// c06RunQuerier asks through query.Querier.Select (deduplicating iff replica labels are to be
+// dropped): partialResponse=true must
+// behave as WARN, false as ABORT.  Chunks are decoded by the querier, so only label sets are kept.
+func c06RunQuerier(w map[string]any, cfg map[string]any, pl *payloads, sseed int64, partialResponse bool, timeout time.Duration) (runResult, []*fakeStore) {
+	clients, fakes := buildStores(w, pl, sseed)
+	retr := store.LazyRetrieval
+	if vt.Str(cfg["retr"]) == "eager" {
+		retr = store.EagerRetrieval
+	}
+	p := store.NewProxyStore(nil, nil, func() []store.Client { return clients }, component.Query, labels.EmptyLabels(),
+		timeout, retr, store.WithLazyRetrievalMaxBufferedResponsesForProxy(vt.Int(cfg["buf"])))
+	creator := query.NewQueryableCreator(log.NewNopLogger(), nil, p, 4, 60*time.Second, "", vt.Int(cfg["rb"]))
+	// replica labels are only stripped by a deduplicating querier
+	replica := withoutNames(w)
+	q, err := creator(len(replica) > 0, replica, nil, 0, partialResponse, false, nil, query.NoopSeriesStatsReporter).Querier(0, 1<<50)
+	res := runResult{series: []any{}}
+	if err != nil {
+		res.err = err.Error()
+		return res, fakes
+	}
+	defer q.Close()
+	ss := q.Select(context.Background(), true, nil, labels.MustNewMatcher(labels.MatchRegexp, "n001", ".*"))
+	for ss.Next() {
+		res.series = append(res.series, map[string]any{"ls": lsetBack(labelpb.ZLabelsFromPromLabels(ss.At().Labels())), "chunks": []any{}})
+	}
+	if err := ss.Err(); err != nil {
+		res.err = err.Error()
+	}
+	for _, wn := range ss.Warnings() {
+		res.warnings = append(res.warnings, wn.Error())
+	}
+	return res, fakes
 }
 
 func c06Random(rnd *rand.Rand) vt.Case {
